@@ -710,6 +710,8 @@ class Interp:
 
     def getattr(self, base, attr, env, node):
         base = unwrap_elem(base)
+        if attr == "free_symbols" and not isinstance(base, (ObjV, ModuleV)):
+            return CollV("FREE-SYMBOLS")            # sympy's set of symbols: no iteration order (hash order, salted per process)
         if isinstance(base, Join):
             acc = None
             for a in base.alts:
@@ -891,6 +893,13 @@ class Interp:
             return a + b
         if isinstance(a, SizeV) and isinstance(b, Const) and isinstance(b.value, int) and isinstance(op, ast.Add):
             return a + SizeV.const(b.value)
+        if isinstance(b, SizeV) and isinstance(a, Const) and isinstance(a.value, int) and not isinstance(a.value, bool) and isinstance(op, ast.Add):
+            return SizeV.const(a.value) + b
+        # <offset> + <loop index>: a position inside a concatenated layout (a column block of a Jacobian taken over the whole argument list)
+        if isinstance(op, ast.Add) and isinstance(a, (SizeV, Const)) and isinstance(b, IdxV) and not (isinstance(a, Const) and not isinstance(a.value, int)):
+            return ("OFFIDX", a if isinstance(a, SizeV) else SizeV.const(a.value), b)
+        if isinstance(op, ast.Add) and isinstance(b, SizeV) and isinstance(a, IdxV):
+            return ("OFFIDX", b, a)
         # row*stride + col
         if isinstance(op, ast.Mult) and isinstance(a, IdxV) and isinstance(b, (SizeV, Const)):
             return ("SCALED", a, b if isinstance(b, SizeV) else (SizeV.const(b.value) if isinstance(b.value, int) else Unknown("stride")))
@@ -994,6 +1003,10 @@ class Interp:
             if isinstance(k, ElemV):
                 return ("MAPGET", base.kind, k)
             return SymV(("value", base.kind))
+        if isinstance(base, SymMatV) and isinstance(sl, ast.Tuple) and len(sl.elts) == 2:
+            # one entry of a symbolic Jacobian: d(row element) / d(column element)
+            r, c = self.ev(sl.elts[0], env), self.ev(sl.elts[1], env)
+            return ("JACAT", base, r, c)
         if isinstance(base, FlatV):
             if isinstance(sl, ast.Slice) and sl.step is None and sl.lower is not None and sl.upper is not None:
                 lo, hi = self.ev(sl.lower, env), self.ev(sl.upper, env)
@@ -1708,6 +1721,36 @@ def _jac_check(self, yields, env, n):
                 ok = _loop_of(key) == names[0].loop
                 self.oblige("LAY-TGT", env, n, f"`double <name of {names[0].layout}>` = model[<same element>]", ok,
                             "the declared local is named after one element but assigned another element's expression")
+            continue
+        if isinstance(expr, tuple) and expr and expr[0] == "JACAT" and len(holes) == 2:
+            _, mat, r, c = expr
+            off = SizeV.const(0)
+            if isinstance(c, tuple) and c and c[0] == "OFFIDX":
+                off, c = c[1], c[2]
+            if not (isinstance(r, IdxV) and isinstance(c, IdxV) and isinstance(mat.cols, Layout) and isinstance(mat.rows, Layout)):
+                self.undecided("LAY-JAC", env, n, "the row / column position inside the symbolic Jacobian could not be evaluated")
+                continue
+            # the column block that starts at `off` in the columns layout
+            pos, seg = SizeV.const(0), None
+            for sg in mat.cols.segs:
+                size = Layout((sg,)).size()
+                if pos == off:
+                    seg = (sg, size)
+                    break
+                pos = pos + size
+            rsize = r.layout.size if isinstance(r.layout, Dim) else (r.layout.size() if isinstance(r.layout, Layout) else None)
+            csize = c.layout.size if isinstance(c.layout, Dim) else (c.layout.size() if isinstance(c.layout, Layout) else None)
+            ok_rows = holes[0].loop == r.loop and r.offset == 0 and rsize == mat.rows.size()
+            ok_cols = seg is not None and holes[1].loop == c.loop and c.offset == 0 and csize == seg[1]
+            why = ""
+            if not ok_rows:
+                why = "the row hole is not the index of the differentiated output"
+            elif seg is None:
+                why = f"column offset {off} is not the start of a block of the argument list {mat.cols}"
+            elif not ok_cols:
+                why = (f"the columns are taken at offset {off} of the argument list {mat.cols}, i.e. the block {Layout((seg[0],))} of {seg[1]} symbol(s), "
+                       f"but the loop runs over {csize}: entry (i, j) is the derivative with respect to a different symbol than column j stands for")
+            self.oblige("LAY-JAC", env, n, f"jacobian(i, j) = J[i, {off} + j] over {mat.cols}", ok_rows and ok_cols, why)
             continue
         if isinstance(expr, tuple) and expr and expr[0] == "DIFF" and len(holes) == 2:
             num, den = expr[1], expr[2]
